@@ -35,6 +35,7 @@ type domSpec struct {
 	// FieldLenBase, if set, restricts FieldLen to loads from objects it accepts (the object a datagram was
 	// decoded into, as opposed to one a later step returned)
 	FieldLenBase func(base ssa.Value) bool
+	renamed      bool                // parameter names already aligned with the function's current ones
 	FieldInt     map[string][2]int64 // Struct.Field -> interval of its integer value
 	Fits         bool                // "the value fits its wire field": a test X > 2^(8n)-1 (n = 1, 2, 4) is outside the domain
 	CallVals     map[string][]int64  // method name -> the values its result takes on the domain (e.g. Type() of the one payload kind in scope)
@@ -82,9 +83,84 @@ type domVerdict struct {
 
 func (d *domAn) specOf(fn *ssa.Function) *domSpec {
 	if s, ok := d.specs[fn]; ok {
+		if !s.renamed {
+			s.renamed = true
+			s.renameParams(d.c, fn)
+		}
 		return s
 	}
 	return &domSpec{ExactLenParam: -1}
+}
+
+// pinnedParamNames: the parameter names (receiver first) the domain tables below were written with. A domain
+// entry is keyed by a parameter's name ("ikeSA.Prf_d"); when a parameter has been renamed since, the entry
+// follows it by position.
+var pinnedParamNames = map[string][]string{
+	"GenerateKeyForIKESA":   {"ikesaKey", "concatenatedNonce", "diffieHellmanSharedKey", "initiatorSPI", "responderSPI"},
+	"NewIKESAKey":           {"proposal", "keyExchangeData", "concatenatedNonce", "initiatorSPI", "responderSPI"},
+	"GenerateKeyForChildSA": {"childsaKey", "ikeSA", "concatenatedNonce"},
+	"EncodeEncrypt":         {"ikeMsg", "ikesaKey", "role"},
+	"encryptMsg":            {"ikeMsg", "ikesaKey", "role"},
+	"DecodeDecrypt":         {"msg", "ikeHeader", "ikesaKey", "role"},
+	"decryptMsg":            {"msg", "ikeMsg", "ikesaKey", "role"},
+	"verifyIntegrity":       {"originData", "checksum", "ikesaKey", "role"},
+	"calculateIntegrity":    {"ikesaKey", "role", "originData"},
+	"encryptPayload":        {"plainText", "ikesaKey", "role"},
+	"decryptPayload":        {"cipherText", "ikesaKey", "role"},
+	"CalcEapAkaPrimeAtMAC":  {"eap", "key"},
+	"setAttr":               {"attr", "attrType", "value"},
+	"SetAttr":               {"eapAkaPrime", "attrType", "value"},
+}
+
+func (s *domSpec) renameParams(c *Ctx, fn *ssa.Function) {
+	name := fn.Name()
+	if role, ok := c.anchorRoleOf(fn); ok {
+		name = role
+	}
+	pinned, ok := pinnedParamNames[name]
+	if !ok || len(pinned) != len(fn.Params) {
+		return
+	}
+	ren := map[string]string{}
+	for i, p := range fn.Params {
+		if p.Name() != pinned[i] {
+			ren[pinned[i]] = p.Name()
+		}
+	}
+	if len(ren) == 0 {
+		return
+	}
+	rekey := func(k string) string {
+		head, rest := k, ""
+		if i := strings.Index(k, "."); i >= 0 {
+			head, rest = k[:i], k[i:]
+		}
+		if n, ok := ren[head]; ok {
+			return n + rest
+		}
+		return k
+	}
+	if s.NonNil != nil {
+		m := map[string]bool{}
+		for k, v := range s.NonNil {
+			m[rekey(k)] = v
+		}
+		s.NonNil = m
+	}
+	if s.LenDom != nil {
+		m := map[string][2]int64{}
+		for k, v := range s.LenDom {
+			m[rekey(k)] = v
+		}
+		s.LenDom = m
+	}
+	if s.IntDom != nil {
+		m := map[string][2]int64{}
+		for k, v := range s.IntDom {
+			m[rekey(k)] = v
+		}
+		s.IntDom = m
+	}
 }
 
 func (s *domSpec) sig() string {
